@@ -19,6 +19,7 @@ def run_check(prop_id: str, tier: str, repo: str, verbose: bool, evidence_dir: s
     except ValueError:
         pass
     t0 = time.time()
+    c = None
     try:
         mod = importlib.import_module('sa.rules.' + prop_id)
         ix = Index(repo)
@@ -27,14 +28,20 @@ def run_check(prop_id: str, tier: str, repo: str, verbose: bool, evidence_dir: s
         mod.check(c)
         return c.finish(evidence_dir, replay_dir, seed)
     except AnalysisError as ex:
-        print('ANALYSIS-ERROR property=%s %s' % (prop_id, ex))
-        _error_evidence(prop_id, tier, seed, evidence_dir, str(ex), time.time() - t0)
-        return 2
+        msg = str(ex)
+    except RecursionError as ex:
+        msg = 'analyser crashed: RecursionError'
     except Exception as ex:  # a crash of the analyser is never a verdict about the property
         traceback.print_exc()
-        print('ANALYSIS-ERROR property=%s analyser crashed: %s: %s' % (prop_id, type(ex).__name__, ex))
-        _error_evidence(prop_id, tier, seed, evidence_dir, 'crash: %s' % ex, time.time() - t0)
-        return 2
+        msg = 'analyser crashed: %s: %s' % (type(ex).__name__, ex)
+    print('ANALYSIS-ERROR property=%s %s' % (prop_id, msg))
+    if c is not None and c.findings:
+        # rules that completed before the analyser gave up found violations: report them
+        c.note('ANALYSIS-ERROR after these findings: ' + msg)
+        rc = c.finish(evidence_dir, replay_dir, seed)
+        return rc if rc == 1 else 2
+    _error_evidence(prop_id, tier, seed, evidence_dir, msg, time.time() - t0)
+    return 2
 
 
 def _error_evidence(prop_id, tier, seed, evidence_dir, msg, wall):
